@@ -247,6 +247,16 @@ def run(ctx: Ctx) -> RuleResult:
         res.finding(f, cache_if, 'expected exactly one self._load call in the cache block, found %d' % len(loads), construct='g:loads')
         return res
     load = loads[0]
+    # the constructor ends there exactly when it loaded: the `return` is in the block of the _load call (a return one level out hands
+    # back an uninitialised object whenever the file is stale)
+    blk_ = parent(enclosing_stmt(load))
+    seq_ = next((getattr(blk_, fld_) for fld_ in ('body', 'orelse') if isinstance(getattr(blk_, fld_, None), list) and enclosing_stmt(load) in getattr(blk_, fld_)), [])
+    rets_ = [r for r in ast.walk(cache_if) if isinstance(r, ast.Return)]
+    okr = len(rets_) == 1 and rets_[0] in seq_ and seq_.index(rets_[0]) > seq_.index(enclosing_stmt(load))
+    res.ob(site, 'g: the constructor returns early exactly after the guarded _load (same block)', okr)
+    if not okr:
+        res.finding(f, rets_[0] if rets_ else enclosing_stmt(load), 'the early return of the cache block is not in the block of the guarded self._load: with a stale '
+                    'cache file the constructor returns an object that was never built (or goes on to rebuild after a successful load)', construct='g:return')
     guards = [a for a in ancestors(load) if isinstance(a, ast.If) and any(load is x for s in a.body for x in ast.walk(s))]
     gtext = ' and '.join(norm(g.test) for g in guards if id(g) in cache_nodes and g is not cache_if)
     # names holding the key or something computed from it (its encoded form kept in a local)
